@@ -518,6 +518,54 @@ def two_phase(ctx, fxt):
     ctx.floor("two-phase conversions", n, 12)
 
 
+def version_propagated(ctx, fx):
+    ctx.rule("C12.version.propagated",
+             "every call that copies one FileGraph's arrays into a new block (fromArrays) passes the SOURCE's format version "
+             "explicitly: the version argument is the source object's graphVersion, never the declaration's default (1) or a "
+             "constant - otherwise a version-2 source is laid out and labelled as version 1 and its 64-bit destinations are "
+             "copied as 32-bit ones")
+    n = 0
+    for f in fx.functions:
+        if f["kind"] == "pattern" or not f["qn"].startswith(G + "FileGraph"):
+            continue
+        for b in f.get("blocks", []):
+            for e in b["ev"]:
+                if not (e.get("k") == "call" and e.get("name") == "fromArrays"):
+                    continue
+                a = e.get("a", [])
+                n += 1
+                src = S(a[0]) if a else "?"
+                who = src.split("outIdx")[0] if src.endswith("outIdx") else None
+                ver = a[9] if len(a) > 9 else None
+                if ver is None or (isinstance(ver, dict) and ver.get("k") == "defarg"):
+                    ok, det = False, "the version argument is left to its default (1)"
+                elif who is not None:
+                    ok = S(ver) == who + "graphVersion"
+                    det = "the version argument is %s, the arrays come from %s" % (S(ver), who.rstrip(".") or "this")
+                else:
+                    ok = "graphVersion" in S(ver) or "Version" in S(ver)
+                    det = "the version argument is %s" % S(ver)
+                ctx.ob("C12.version.propagated", f["qn"], ok, "line %s: %s" % (e.get("l"), det), "%s:%s" % (f["file"], e.get("l")),
+                       "fromArrays@%s" % f["name"], fnkey=f["key"])
+    ctx.floor("fromArrays call sites", n, 2)
+
+
+def buffered_offsets(ctx, fx):
+    ctx.rule("C12.buffered.edge-offset-recorded",
+             "BufferedGraph::loadEdgeDest records the sub-range's first edge (edgeOffset = edgeStart) on every path to its exit, "
+             "including the early return for a range without edges: edgeBegin() of the first local node answers with edgeOffset, "
+             "edgeEnd() with the global prefix sum")
+    fs = find(fx, G + "BufferedGraph::loadEdgeDest")
+    ctx.floor("BufferedGraph::loadEdgeDest instantiations", len(fs), 2)
+    for f in fs:
+        fn = ctx.fn(f)
+        rec = lambda e: e.get("k") == "assign" and e.get("lp") == "this->edgeOffset" and e.get("rp") == f["params"][1]["n"]
+        ok = any(True for _ in fn.events(rec)) and not fn.exit_reachable_without(rec)
+        ctx.ob("C12.buffered.edge-offset-recorded", "BufferedGraph::loadEdgeDest", ok,
+               "a path returns without recording edgeOffset = %s (a node range without edges at a non-zero edge offset then shows "
+               "a phantom edge range [0, prefix sum))" % f["params"][1]["n"], fn.loc(), f["key"][-50:], fnkey=f["key"])
+
+
 def run(ctx):
     ctx.explanation = EXPL
     fx = ctx.load("src", "drv_grfile")
@@ -529,6 +577,8 @@ def run(ctx):
     layout(ctx, fx, fxd)
     widths(ctx, fx)
     versions(ctx, fx)
+    version_propagated(ctx, fx)
+    buffered_offsets(ctx, fx)
     endian(ctx)
     fxt = ctx.load("tool_graph-convert")
     convert_dispatch(ctx, fxt)
